@@ -378,8 +378,9 @@ def AffMaps (c : AffCert) (o o0 : HOp) : Prop :=
 
 /-- The two lists of coset representatives (modulo ℤ³) describe space groups that are conjugate
 under a proper affine map: every operation of `src` is carried to one of `tgt` and every
-operation of `tgt` is reached. -/
+operation of `tgt` is reached; the two lists have the same number of coset representatives. -/
 def AffConj (src tgt : List HOp) : Prop :=
+  src.length = tgt.length ∧
   ∃ c : AffCert, c.P.det = 1 ∧ 0 < c.den ∧ c.den % 12 = 0 ∧
     (∀ o ∈ src, ∃ o0 ∈ tgt, AffMaps c o o0) ∧ (∀ o0 ∈ tgt, ∃ o ∈ src, AffMaps c o o0)
 
@@ -397,7 +398,7 @@ theorem affConj_of_conjOK {src tgt : List HOp} {c : AffCert} {perm : List Nat}
       simp only [Bool.and_eq_true, beq_iff_eq] at this
       obtain ⟨⟨h1, h2⟩, h3⟩ := this
       exact ⟨o0, ho0, h1, h2, (mod_eq_zero_iff _ _).1 h3⟩
-  refine ⟨c, hd, hpos, hden, ?_, ?_⟩
+  refine ⟨hlen, c, hd, hpos, hden, ?_, ?_⟩
   · intro o ho
     obtain ⟨i, hi⟩ := List.mem_iff_getElem?.1 ho
     have hil : i < src.length := by
@@ -416,7 +417,7 @@ theorem affConj_of_conjOK {src tgt : List HOp} {c : AffCert} {perm : List Nat}
 /-- The linear parts of affinely conjugate groups are conjugate in GL₃(ℤ) (by `P`, `det P = 1`). -/
 theorem conjugate_rots_of_affConj {src tgt : List HOp} (h : AffConj src tgt) :
     Conjugate (src.map (·.rot)) (tgt.map (·.rot)) := by
-  obtain ⟨c, hd, _, _, h1, h2⟩ := h
+  obtain ⟨_, c, hd, _, _, h1, h2⟩ := h
   have hdd : c.P.det = 1 ∨ c.P.det = -1 := Or.inl hd
   have hu : Unimod c.P (OracleGroup.inv1 c.P) := ⟨OracleGroup.mul_inv1 hdd, OracleGroup.inv1_mul hdd⟩
   have hQ : OracleGroup.inv1 c.P = c.P.adj := by
